@@ -159,6 +159,7 @@ type FuncSpec struct {
 // to, or written through an atomic or mutex operation on them) by the listed functions and their closures only; every
 // other function of the module that writes one of them fails the clause. Checked on the SSA of the whole module.
 type Census struct {
+	Shape   string   // non-empty: "shape F calls G, H" - the function F (typically one under a trusted summary) still makes static calls to G and H
 	Fields  []string
 	Writers []string
 	Tag     string
